@@ -327,6 +327,168 @@ def run(prog, chk):
     if n_refs < 15:
         raise Broken("only %d references to container-scoped tables found in the embedded statements" % n_refs)
 
+    r6 = chk.rule("R6-null-category-is-not-scalar", "every decision whether a loop category is the scalar category \"\" answers no for "
+                  "a NULL category (no category): by the boolean structure of the test, or because the test is only reached "
+                  "where the category was found non-NULL", primary=False, floor=3)
+    scalar_category_rule(prog, r6)
+
+
+def scalar_category_rule(prog, rule):
+    """Every decision `this category is the scalar category ""` answers no for a NULL category (cif.h: the scalar loop is
+    identified by an empty, not NULL, category).  Category expressions are resolved through the program: the out-parameter of
+    cif_loop_get_category, the `category` field of a loop, the category parameter of the two public functions taking one."""
+    CAT_PARAM = {"cif_loop_set_category": 1, "cif_container_get_category_loop": 1, "cif_container_create_loop": 1}
+    n_sites = 0
+    for fn in prog.all_functions():
+        cats = set()
+        for (b, i, r, n) in fn.calls_to("cif_loop_get_category"):
+            if len(n.get("args", [])) > 1:
+                a = strip(n["args"][1])
+                if isinstance(a, dict) and a.get("k") == "un" and a.get("op") == "&" and path(a.get("e")):
+                    cats.add(path(a.get("e")))
+        if fn.name in CAT_PARAM and len(fn.params) > CAT_PARAM[fn.name]:
+            cats.add(fn.params[CAT_PARAM[fn.name]]["name"])
+
+        def is_cat(e):
+            pth = path(strip(e))
+            return pth is not None and (pth in cats or pth.endswith("->category") or pth.endswith(".category"))
+
+        neg_sites = set()
+
+        def empty_test(e):
+            """e is true exactly when a category string is empty (or, for ids in neg_sites, non-empty) -> the category
+            expression, else None"""
+            e = strip(e)
+            if not isinstance(e, dict):
+                return None
+            def first_char(x):
+                x = strip(x)
+                if isinstance(x, dict) and x.get("k") == "un" and x.get("op") == "*" and is_cat(x.get("e")):
+                    return x.get("e")
+                if isinstance(x, dict) and x.get("k") == "index" and const(x.get("idx")) == 0 and is_cat(x.get("base")):
+                    return x.get("base")
+                if isinstance(x, dict) and x.get("k") == "call" and x.get("callee") in ("u_strcmp", "u_strlen", "u_strcmp"):
+                    args = x.get("args", [])
+                    if x["callee"] == "u_strlen" and args and is_cat(args[0]):
+                        return args[0]
+                    if x["callee"] == "u_strcmp" and len(args) == 2:
+                        for a, o in ((args[0], args[1]), (args[1], args[0])):
+                            if is_cat(a) and (path(strip(o)) or "").lstrip("&(").startswith("cif_uchar_nul") or \
+                                    (is_cat(a) and "CIF_SCALARS" in (strip(o).get("ms") or [])):
+                                return a
+                return None
+            if e.get("k") == "un" and e.get("op") == "!":
+                return first_char(e.get("e"))
+            if e.get("k") == "bin" and e.get("op") in ("==", "!="):
+                for x, o in ((e.get("lhs"), e.get("rhs")), (e.get("rhs"), e.get("lhs"))):
+                    if const(o) == 0 and first_char(x) is not None:
+                        if e["op"] == "!=":
+                            neg_sites.add(e.get("id"))
+                        return first_char(x)
+            return None
+
+        def ev(e, cat):
+            """three-valued value of a boolean expression when `cat` is NULL"""
+            e = strip(e)
+            if not isinstance(e, dict):
+                return None
+            k = e.get("k")
+            if path(e) == cat:
+                return 0
+            if k == "un" and e.get("op") == "!":
+                v = ev(e.get("e"), cat)
+                return None if v is None else 1 - v
+            if k == "bin" and e.get("op") in ("==", "!="):
+                for x, o in ((e.get("lhs"), e.get("rhs")), (e.get("rhs"), e.get("lhs"))):
+                    if path(strip(x)) == cat and const(o) == 0:
+                        return 1 if e["op"] == "==" else 0
+                return None
+            if k == "bin" and e.get("op") in ("&&", "||"):
+                l, r = ev(e.get("lhs"), cat), ev(e.get("rhs"), cat)
+                if e["op"] == "&&":
+                    return 0 if (l == 0 or r == 0) else (1 if (l == 1 and r == 1) else None)
+                return 1 if (l == 1 or r == 1) else (0 if (l == 0 and r == 0) else None)
+            return None
+
+        seen = {}
+        for b in fn.blocks.values():
+            trees = list(b.roots)
+            c = cfgq.cond_of(fn, b)
+            if c is not None:
+                trees.append(c)
+            if b.term and isinstance(b.term.get("full"), dict):
+                trees.append(b.term["full"])
+            for root in trees:
+                # parent links inside this tree
+                parent = {}
+                for n in walk(root):
+                    for key in ("lhs", "rhs", "e", "c", "then", "else"):
+                        ch = n.get(key)
+                        if isinstance(ch, dict):
+                            parent[id(ch)] = n
+                    if n.get("k") == "decl":
+                        for v in n.get("vars", []):
+                            if isinstance(v.get("init"), dict):
+                                parent[id(v["init"])] = n
+                for n in walk(root):
+                    ce = empty_test(n)
+                    if ce is None:
+                        continue
+                    cat = path(strip(ce))
+                    top = n
+                    positive = n.get("id") not in neg_sites
+                    while True:
+                        pn = parent.get(id(top))
+                        if pn is None:
+                            break
+                        if pn.get("k") == "un" and pn.get("op") == "!":
+                            positive = not positive
+                            top = pn
+                        elif pn.get("k") == "cast" or (pn.get("k") == "bin" and pn.get("op") in ("&&", "||")):
+                            top = pn
+                        else:
+                            break
+                    v = ev(top, cat)
+                    if v is not None and not positive:
+                        v = 1 - v       # `top` is true for non-scalar categories: NULL must make it true
+                    key = (n.get("id"), cat)
+                    if seen.get(key) in (0, 1) and v is None:
+                        continue
+                    if v is not None or key not in seen:
+                        seen[key] = v
+                        seen[(key, "n")] = n
+        for key, v in list(seen.items()):
+            if len(key) == 2 and key[1] == "n":
+                continue
+            n = seen[(key, "n")]
+            cat = key[1]
+            n_sites += 1
+            label = "%s:L%s:%s" % (fn.name, n.get("l"), cat)
+            if v == 1:
+                rule.violation(fn.file, fn.name, n.get("l"), "null-category-is-scalar:%s" % fn.name,
+                               "the decision at L%s whether `%s` is the scalar category \"\" answers yes when `%s` is NULL: loops "
+                               "without a category are then treated as the scalar loop (single packet, row numbering restarted)"
+                               % (n.get("l"), cat, cat))
+                continue
+            if v == 0:
+                rule.ok(label, "false for a NULL category by its own boolean structure")
+                continue
+            # undetermined by the expression itself: the test must only be evaluated where the category is known non-NULL
+            def nonnull(cnd, cat=cat):
+                z = cfgq.zero_test(cnd, lambda e: path(strip(e)) == cat)
+                return None if z is None else ("false" if z == "true" else "true")
+            ge = cfgq.guard_edges(fn, nonnull)
+            site_blocks = [bb.id for (bb, i, r, m) in fn.eval_sites() if m.get("id") == n.get("id")]
+            if site_blocks and ge and all(cfgq.must_pass_edge(fn, sb, ge) for sb in site_blocks):
+                rule.ok(label, "evaluated only after `%s` was found non-NULL" % cat)
+            else:
+                rule.violation(fn.file, fn.name, n.get("l"), "category-emptiness-unguarded:%s" % fn.name,
+                               "`%s` is tested for being the empty (scalar) category at L%s without having been found non-NULL on "
+                               "every path: a loop without a category reaches the test" % (cat, n.get("l")))
+    if n_sites < 3:
+        raise Broken("only %d decisions on the scalar category found (expected write_loop_start, cif_loop_set_category, "
+                     "cif_pktitr_remove_packet)" % n_sites)
+
 
 SCOPED_TABLES = ("loop", "loop_item", "item_value", "unnumbered_loop")
 _SQL_KW = {"on", "using", "where", "join", "set", "group", "order", "values", "select", "left", "inner", "natural", "cross", "as", "and", "or", "limit"}
